@@ -26,4 +26,7 @@ def check(ctx: Ctx) -> str:
 
     ctx.use('filters', 'utils', 'ext', 'nodes')
     markup_inventory(ctx, "R4")
+    from .c37 import derived_context_rule
+
+    derived_context_rule(ctx, "R5")
     return __doc__ or ""
